@@ -343,6 +343,7 @@ static int build_image (rq_image *im, vf_rng *r, int role)
     if (!im->img) return 0;
     if (im->kind == RQ_BITS && rp_is_indexed (im->fmt)) { im->palette = rq_make_palette (im->fmt, im->pixseed); if (!im->palette) return 0; pixman_image_set_indexed (im->img, im->palette); }
     if (im->kind == RQ_SOLID) { if (im->ca) pixman_image_set_component_alpha (im->img, 1); return 1; }
+    if (role == 2 && im->repeat != PIXMAN_REPEAT_NONE) pixman_image_set_repeat (im->img, im->repeat);   /* a repeat on a destination only affects its opacity flags */
     if (role != 2) {
         if (im->tr_class != TR_NONE) pixman_image_set_transform (im->img, &im->tr);
         if (im->n_params) { im->live_params = malloc (im->n_params * sizeof (pixman_fixed_t)); memcpy (im->live_params, im->params, im->n_params * sizeof (pixman_fixed_t)); }
@@ -393,6 +394,23 @@ int rq_build (rq_request *q, vf_rng *r)
     }
     if (q->has_mask && !build_image (&q->mask, r, 1)) { rq_free (q); return 0; }
     return 1;
+}
+/* make the pixels of a built direct-colour image premultiplied-valid (colour <= alpha as real values) */
+void rq_make_premultiplied (rq_image *im)
+{
+    if (im->kind != RQ_BITS || !im->buf.map || im->buf.bpp > 32 || !rp_is_direct (im->fmt)) return;
+    int sh[4], bits[4]; rp_layout (im->fmt, sh, bits);
+    if (!bits[0]) return;
+    uint32_t amax = (1u << bits[0]) - 1;
+    for (int y = 0; y < im->h; y++) for (int x = 0; x < im->w; x++) {
+        uint8_t *row = vf_buf_row (&im->buf, y); uint32_t raw = vf_get_px (row, im->buf.bpp, x), av = (raw >> sh[0]) & amax;
+        for (int c = 1; c < 4; c++) if (bits[c]) {
+            uint32_t mx = (1u << bits[c]) - 1, v = (raw >> sh[c]) & mx;
+            uint32_t lim = (uint32_t)((uint64_t)av * mx / amax);
+            if (v > lim) raw = (raw & ~(mx << sh[c])) | (lim << sh[c]);
+        }
+        vf_put_px (row, im->buf.bpp, x, raw);
+    }
 }
 void rq_free (rq_request *q) { free_image (&q->src); free_image (&q->dst); if (q->has_mask) free_image (&q->mask); }
 
